@@ -44,6 +44,11 @@ def hub_stage(ck, prop, bgraph, routers=True):
     ck.ev.cov["hub_worlds"] = len(cases)
 
 
+def lowest_probe_stage(ck, prop):
+    """Known finding F16 (fields holding numeric_limits<double>::lowest() at several nodes): shown on every run."""
+    ck.traces(cf.lowest_probe_cases(16, prop), [prop], tag=prop.lower() + "f16", nontrivial=cf.nontrivial_world, timeout_ms=30000)
+
+
 def wrap_stage(ck, checks, prop):
     """Objects that live through 2^8 (and, thorough tier, 2^16) calls with a depression node masked, then unmasked."""
     q = ck.tier == "quick"
@@ -64,6 +69,7 @@ def plan_C01(ck):
     if q and ck.violations:
         return
     wrap_stage(ck, ["C01", "C09"], "C01")
+    lowest_probe_stage(ck, "C01")
 
 
 def plan_C02(ck):
@@ -78,6 +84,7 @@ def plan_C02(ck):
     if q and ck.violations:
         return
     wrap_stage(ck, ["C02", "C09"], "C02")
+    lowest_probe_stage(ck, "C02")
 
 
 def router_models(ck):
@@ -367,6 +374,7 @@ def plan_C15(ck):
     if q and ck.violations:
         return
     hub_stage(ck, "C15", bgraph=True, routers=False)
+    lowest_probe_stage(ck, "C15")
 
 
 def plan_C14(ck):
